@@ -43,6 +43,7 @@ type scenario struct {
 	Short   bool // short state timeouts (otherwise one hour)
 	Perturb bool
 	Special string // "" or the name of a special scenario
+	Hist    *histT // two-call history (hist.go)
 	Rep     int    // repetition (thorough: seeds)
 }
 
@@ -108,6 +109,7 @@ type runT struct {
 	label string
 	rnd   *core.Rand
 	T     time.Duration
+	msgs  msgTable
 
 	a, b *netsim.Conn
 	peer *rawEnd
@@ -592,6 +594,9 @@ func (r *runT) behaviour() string {
 	if r.sc.Special != "" {
 		return r.sc.Special
 	}
+	if r.sc.Hist != nil {
+		return r.sc.Hist.key(r.sc.F)
+	}
 	return r.sc.F.key()
 }
 
@@ -735,6 +740,10 @@ func (r *runT) body() {
 
 	if r.sc.Special != "" {
 		r.special()
+		return
+	}
+	if r.sc.Hist != nil {
+		r.history()
 		return
 	}
 
@@ -908,6 +917,9 @@ func (r *runT) judge(peerClosed bool) {
 	class := f.Class
 	if r.sc.Special != "" {
 		class = "special"
+	}
+	if r.sc.Hist != nil {
+		class = "history"
 	}
 	defer r.teardown()
 	r.c.Count("scenarios:"+class, 1)
